@@ -7,19 +7,24 @@ from ..rules.skeleton import Interp, Ptr, Budget, Stop
 from ..util import is_assign
 
 EXPLANATION = (
-    "Static decision of structural clauses of C14: (1) in each of the four page loaders "
-    "(load_dictionary_page_{mmap,fread}, load_next_page_{mmap,fread}) every CFG path to a consumer of "
-    "page bytes (decompress_page, carquet_read_dictionary_page, carquet_read_data_page_v1, the "
-    "zero-copy hand-out) that does not leave through the false arm of `has_crc && verify_checksums` "
-    "passes the comparison of carquet_crc32(stored bytes, compressed_page_size) with the header crc, "
-    "whose mismatch arm returns CRC_MISMATCH and reaches no consumer; (2) the writer checksums exactly "
-    "the buffer/size it appends after the header and write_crc defaults to on; (3) the table generator "
-    "uses the reflected IEEE polynomial 0xEDB88320; (4) cursor-skeleton abstract execution of "
-    "crc32_slicing_by_8 for every length 0..80 (0..400 in the thorough tier): all reads stay inside [0,length) and every input byte "
-    "is read (no byte can escape the checksum), for both entry points; (5) the page-header parser sets "
-    "has_crc to a constant true in the arm that reads field 4, whatever the stored value (a CRC of 0 is a "
-    "legal checksum), so the gate of (1) is open whenever a checksum was stored. Decides these clauses, not "
-    "equality with zlib for all inputs nor the CRC's error-detection algebra.")
+    "Static decision of structural clauses of C14: (1) the four page loaders are executed abstractly over "
+    "{CRC stored or not} x {verification option} x {stored, computed} CRC pairs (equal, different, zero, "
+    "negative as int32) x codec x levels, with the header parser, positioned reads, CRC, codecs, "
+    "allocator and page decoders hooked: with a stored CRC and verification on, exactly "
+    "compressed_page_size stored bytes - the ones later handed to the codec/decoder - are checksummed "
+    "before any consumer runs, the page is accepted exactly when the values are equal as unsigned 32-bit "
+    "numbers, a mismatch returns CRC_MISMATCH and no page byte reaches a codec, a decoder or the "
+    "zero-copy view; otherwise the page is read; (2) the writer checksums exactly the buffer/size it "
+    "appends after the header and write_crc / verify_checksums default to on; (3) the table generator "
+    "uses the reflected IEEE polynomial 0xEDB88320 and the lazily built tables are built (or known built) "
+    "before every read of them, also in helpers; (4) cursor-skeleton execution of the core routine for "
+    "every length 0..80 (0..400 thorough): all reads stay inside [0,length) and every input byte is read; "
+    "with the core hooked, carquet_crc32 and carquet_crc32_update fold exactly their own (data, length) "
+    "once, a fresh checksum is an update from 0, the value an update returns resumes the core exactly "
+    "where it stopped (chunks compose, whether the register inversion lives in the core or in the entry "
+    "points), and an empty chunk changes nothing; (5) the page-header parser sets has_crc to a constant "
+    "true in the arm that reads field 4, whatever the stored value. Decides these clauses, not equality "
+    "with zlib for all inputs nor the CRC's error-detection algebra.")
 
 PR = "src/reader/page_reader.c"
 PW = "src/writer/page_writer.c"
